@@ -1,19 +1,19 @@
-\* design check with entries: <= 2 includes and <= 1 exclude from the 16-entry mixed pool x 3 version sets x 16 flag seeds; all laws
+\* design check with entries: <= 2 includes and <= 1 exclude from a 10-entry mixed pool x 3 version sets x 4 flag seeds; all laws
 CONSTANTS
   NZ = 2
   AxisVs <- ListVs
-  AxisPs <- EntPs2
+  AxisPs = {{}}
   AxisCs = {{}}
   AxisZs = {{}}
-  AxisSs <- EntSs2
+  AxisSs = {{}}
   TriH2c = {"unset", "false"}
   TriTls = {"unset", "false"}
-  TriCerts = {"unset", "true"}
+  TriCerts = {"unset"}
   TriTrailers = {"unset"}
-  TriHdh1 = {"unset", "true"}
+  TriHdh1 = {"unset"}
   TriGet = {"unset"}
   TriLim = {"unset"}
-  EntryPool <- EntrySmallPool
+  EntryPool <- EntryTenPool
   MaxInc = 2
   MaxExc = 1
 INIT Init
